@@ -26,6 +26,8 @@ var staleText = "#!/bin/bash\n" + strings.Repeat("echo STALE LINE OF AN EARLIER 
 const (
 	goodProg = "x := 7000000\nfor i := 0; i < 2; i++ {\n\tprint(x + i)\n}\n"
 	// a program that imports a file with top-level state (what one run emits for a second target must not depend on the first)
+	// a program that uses the standard library (found next to the executable)
+	stdProg       = "import \"os\"\nx := 7000000\nprint(os.Shell(), x)\n"
 	importingProg = "import l \"lib/state.tsh\"\nx := 7000000\nprint(l.Sum(x), l.Next())\n"
 	libState      = "Base := 40\ncount := 0\nprint(\"lib loaded\")\nfunc Sum(a int) int {\n\treturn a + Base\n}\nfunc Next() int {\n\tcount++\n\treturn count\n}\n"
 	badProg       = "x := 1\nprint(y)\n"
@@ -45,8 +47,8 @@ func CheckC19(r *Run) int {
 	if !quick {
 		maxPairs = 4
 	}
-	inputs := []string{"in/rel.1.0/build", "in/a.tsh", "in/a.b.tsh", "in/noext", "in/my prog.tsh", "in/bad.tsh", "in/lexbad.tsh", "in/missing.tsh", "in"}
-	outs := []string{"out", "out dir", "nodir", "in/a.tsh"}
+	inputs := []string{"in/rel.1.0/build", "in/a.tsh", "in/a.b.tsh", "in/noext", "in/my prog.tsh", "in/bad.tsh", "in/lexbad.tsh", "in/missing.tsh", "in", "in/a.b.tsh ", " in/a.tsh", "in/std.tsh"}
+	outs := []string{"out", "out dir", "nodir", "in/a.tsh", "out ", " out"}
 	var bads []cmdOutcome
 	probes := map[string][]string{}
 	okRuns, errRuns := 0, 0
@@ -61,6 +63,7 @@ func CheckC19(r *Run) int {
 		c.FS.AddFile("/w/in/a.tsh", gosym.Conc(goodProg))
 		c.FS.AddFile("/w/in/a.b.tsh", gosym.Conc(importingProg))
 		c.FS.AddFile("/w/in/lib/state.tsh", gosym.Conc(libState))
+		c.FS.AddFile("/w/in/std.tsh", gosym.Conc(stdProg))
 		c.FS.AddFile("/w/in/noext", gosym.Conc(goodProg))
 		c.FS.AddFile("/w/in/my prog.tsh", gosym.Conc(goodProg))
 		c.FS.AddFile("/w/in/bad.tsh", gosym.Conc(badProg))
@@ -99,10 +102,11 @@ func CheckC19(r *Run) int {
 			optsL = append(optsL, opt{flag, value})
 		}
 		ins, os_ := inputs, outs
-		tys := []string{"bash", "batch", "sh", "Bash", ""}
+		tys := []string{"bash", "batch", "bash ", "sh", "Bash", "", " batch"}
 		if quick {
-			ins = []string{"in/rel.1.0/build", "in/a.b.tsh", "in/my prog.tsh", "in/bad.tsh", "in/missing.tsh"}
-			os_ = []string{"out", "out dir", "nodir"}
+			// values with a blank at an edge name nothing that exists: they must fail like any other missing file, directory or target
+			ins = []string{"in/rel.1.0/build", "in/a.b.tsh", "in/my prog.tsh", "in/bad.tsh", "in/a.b.tsh ", "in/std.tsh"}
+			os_ = []string{"out", "out dir", "out "}
 			tys = tys[:3]
 		}
 		if k := c.Choose("in", 0, len(ins)); k < len(ins) {
@@ -125,14 +129,14 @@ func CheckC19(r *Run) int {
 			}
 		}
 		args := []gosym.Str{gosym.Conc("tsh")}
-		switch c.Choose("noise", 0, 2) {
+		switch c.Choose("noise", 0, 1) {
 		case 1:
 			optsL = append(optsL, opt{gosym.Conc("--input"), "v"})
 		}
 		for _, o := range optsL {
 			args = append(args, o.flag, gosym.Conc(o.value))
 		}
-		if c.Choose("trailing", 0, 2) == 1 {
+		if c.Choose("trailing", 0, 1) == 1 {
 			args = append(args, gosym.Conc("-t"))
 		}
 		c.Args = args
@@ -187,6 +191,7 @@ func CheckC19(r *Run) int {
 			return cmdOutcome{Kind: "bad", What: what, Args: as, Lits: lits}
 		}
 		unknownOpt := false
+		nIn, nOut := 0, 0
 		for _, o := range optsL {
 			fs := "?"
 			for _, known := range []string{"-i", "--in", "-o", "--out", "-t", "--type"} {
@@ -198,8 +203,10 @@ func CheckC19(r *Run) int {
 			switch fs {
 			case "-i", "--in":
 				in = o.value
+				nIn++
 			case "-o", "--out":
 				out = o.value
+				nOut++
 			case "-t", "--type":
 				targets = append(targets, o.value)
 			default:
@@ -245,6 +252,21 @@ func CheckC19(r *Run) int {
 			for _, p := range changed() {
 				if !okTargets[p] {
 					return bad(fmt.Sprintf("failed run (%s) left a new or changed file %s", gp.Msg, p))
+				}
+			}
+			// a run whose options are complete and valid, whose output directory exists and whose input the library
+			// accepts for every requested target must succeed
+			if !unknownOpt && nIn == 1 && nOut == 1 && len(targets) > 0 && len(okTargets) > 0 && c.FS.Dirs[c.FS.Abs(out)] {
+				allOK := true
+				seenT := map[string]bool{}
+				for _, t := range targets {
+					if map[string]string{"bash": "sh", "batch": "bat"}[t] == "" {
+						allOK = false
+					}
+					seenT[t] = true
+				}
+				if allOK && len(okTargets) == len(seenT) {
+					return bad(fmt.Sprintf("the run fails (%s) although the options are valid and the library accepts the input", gp.Msg))
 				}
 			}
 			return cmdOutcome{Kind: "error-exit"}
@@ -409,6 +431,8 @@ func classifyCmd(b cmdOutcome) string {
 		return "output-differs"
 	case strings.Contains(b.What, "exit status 0"):
 		return "exit-0-on-error"
+	case strings.Contains(b.What, "the run fails"):
+		return "valid-run-fails"
 	case strings.Contains(b.What, "not written"):
 		return "output-missing"
 	}
@@ -427,7 +451,7 @@ func confirmCmd(nat *Native, b cmdOutcome) (bool, string) {
 		x = "5"
 	}
 	good := strings.ReplaceAll(goodProg, "7000000", x)
-	w := map[string]string{"in/rel.1.0/build": good, "in/a.tsh": good, "in/a.b.tsh": strings.ReplaceAll(importingProg, "7000000", x), "in/lib/state.tsh": libState, "in/noext": good, "in/my prog.tsh": good, "in/bad.tsh": badProg, "in/lexbad.tsh": lexBad, "out/a.sh": staleText, "out/a.bat": staleText, "out/bad.sh": staleText, "out/a.b.sh": staleText, "out/a.b.bat": staleText, "out dir/my prog.sh": staleText}
+	w := map[string]string{"in/rel.1.0/build": good, "in/a.tsh": good, "in/a.b.tsh": strings.ReplaceAll(importingProg, "7000000", x), "in/lib/state.tsh": libState, "in/std.tsh": strings.ReplaceAll(stdProg, "7000000", x), "in/noext": good, "in/my prog.tsh": good, "in/bad.tsh": badProg, "in/lexbad.tsh": lexBad, "out/a.sh": staleText, "out/a.bat": staleText, "out/bad.sh": staleText, "out/a.b.sh": staleText, "out/a.b.bat": staleText, "out dir/my prog.sh": staleText}
 	for p, c := range w {
 		os.MkdirAll(filepath.Dir(filepath.Join(dir, p)), 0o777)
 		os.WriteFile(filepath.Join(dir, p), []byte(c), 0o666)
@@ -446,7 +470,8 @@ func confirmCmd(nat *Native, b cmdOutcome) (bool, string) {
 		return m
 	}
 	before := snapshot()
-	cmd := exec.Command("timeout", append([]string{"20", nat.Tsh}, b.Args[1:]...)...)
+	cmd := exec.Command("/usr/bin/timeout", append([]string{"20", filepath.Base(nat.Tsh)}, b.Args[1:]...)...)
+	cmd.Env = append(os.Environ(), "PATH="+filepath.Dir(nat.Tsh)+":/usr/bin:/bin") // started by bare name through the search path
 	cmd.Dir = dir
 	outb, err := cmd.CombinedOutput()
 	code := 0
@@ -492,6 +517,9 @@ func confirmCmd(nat *Native, b cmdOutcome) (bool, string) {
 		return false, desc
 	}
 	if strings.Contains(b.What, "left a new or changed file") && len(changed) > 0 {
+		return true, desc
+	}
+	if strings.Contains(b.What, "the run fails") {
 		return true, desc
 	}
 	return false, desc
